@@ -179,7 +179,7 @@ ROLES = {
     "KEY_RECORD_WRITE": dict(owner=KEYPIECE, name="dat_write_piece_one",
                              shape=lambda p, f: len(f.inputs) == 2 and short(f.inputs[1]) == "&mut VarFile" and short(f.output) == "Result<(), Error>"),
     "KEY_SIZER": dict(owner=KEYPIECE, name="encoded_piece_size",
-                      shape=lambda p, f: len(f.inputs) == 1 and short(f.output) == "(u32, u32, Length<Key>)"),
+                      shape=lambda p, f: len(f.inputs) == 1 and (short(f.output) == "(u32, u32, Length<Key>)" or _is_sizer(p, f))),
     "KEY_READ_PIECE": dict(owner=KEYCACHE, name="read_piece",
                            shape=lambda p, f: len(f.inputs) == 2 and short(f.inputs[0]).startswith("&mut VarFileKeyCache<") and short(f.output).startswith("Result<KeyPiece<")),
     "HDR_INIT_KEY": dict(owner=None, module=M_KEY, name="write_keyrecf_init_header",
@@ -206,7 +206,7 @@ ROLES = {
     "VAL_RECORD_WRITE": dict(owner=VALPIECE, name="dat_write_piece_one",
                              shape=lambda p, f: sig(f) == (("&ValuePiece", "&mut VarFile"), "Result<(), Error>")),
     "VAL_SIZER": dict(owner=VALPIECE, name="encoded_piece_size",
-                      shape=lambda p, f: len(f.inputs) == 1 and short(f.output) == "(u32, u32, Length<Value>)"),
+                      shape=lambda p, f: len(f.inputs) == 1 and (short(f.output) == "(u32, u32, Length<Value>)" or _is_sizer(p, f))),
     "HDR_INIT_VAL": dict(owner=None, module=M_VAL, name="write_valrecf_init_header",
                          shape=lambda p, f: sig(f) == (("&mut VarFile", "[u8; 8]"), "Result<(), Error>") and any(n.startswith("write") for n in _callee_names(f))),
     "HDR_CHECK_VAL": dict(owner=None, module=M_VAL, name="check_valrecf_header",
@@ -271,6 +271,18 @@ ROLES = {
     "ITER_NEW": dict(owner=ITERMUT, name="new",
                      shape=lambda p, f: len(f.inputs) == 1 and short(f.output).startswith("Result<DbXxxIterMut<") and f.impl_self_adt == ITERMUT),
 }
+
+
+def _is_sizer(prog, f):
+    """a `&self` method of a record type whose result is an aggregate with a payload-sum component and a size-field-length
+    component (c09.sizer_components): the size estimate, whatever it is called and however its result is packaged"""
+    if f.impl_trait is not None or f.output.startswith("core::result::Result<"):
+        return False
+    try:
+        from .c09 import sizer_components
+        return sizer_components(prog, f) is not None
+    except Exception:
+        return False
 
 
 def free_head_components(prog, roles_obj):
